@@ -4,6 +4,7 @@ package harness
 
 import (
 	"fmt"
+	"math"
 	"testing"
 
 	"github.com/platinummonkey/go-concurrency-limits/limit"
@@ -40,7 +41,8 @@ func genC16(t *rapid.T) c16Case {
 			regs++
 			c.Ops = append(c.Ops, c16Op{K: "reg"})
 		case k <= 3 && c.Cfg.Algo == "settable":
-			c.Ops = append(c.Ops, c16Op{K: "set", N: rapid.IntRange(-3, 500).Draw(t, "setn")})
+			c.Ops = append(c.Ops, c16Op{K: "set", N: rapid.OneOf(rapid.IntRange(-3, 500), rapid.IntRange(-3, 500),
+				rapid.SampledFrom([]int{32767, 32768, 65535, 65536, 1 << 24, math.MaxInt32 - 1, math.MaxInt32, math.MinInt32})).Draw(t, "setn")})
 		default:
 			c.Ops = append(c.Ops, c16Op{K: "sample"})
 		}
